@@ -73,6 +73,14 @@ func (fx *FuncCtx) convertVal(st *State, v Val, from, to types.Type, node ast.No
 		}
 		if fs, ok := isFloat(from); ok {
 			t := v.(Term)
+			if fx.real {
+				// truncation toward zero (the range of the integer type is assumed, as in the other modes)
+				r := fx.define("f2i", Ite(app(SBool, ">=", t, Term{"0.0", fs}), app(SInt, "to_int", t), app(SInt, "-", app(SInt, "to_int", app(fs, "-", t)))))
+				if st != nil {
+					st.assume(tk.rangeOf(r))
+				}
+				return r
+			}
 			fn := fmt.Sprintf("f2i_%s", fs)
 			fx.declFun(fn, []Sort{fs}, SInt)
 			r := app(SInt, fn, t)
@@ -87,7 +95,7 @@ func (fx *FuncCtx) convertVal(st *State, v Val, from, to types.Type, node ast.No
 			return fx.intToFloat(v.(Term), ts)
 		}
 		if fs, ok := isFloat(from); ok {
-			if fs == ts {
+			if fs == ts || fx.real {
 				return v
 			}
 			fn := fmt.Sprintf("fconv_%s_%s", fs, ts)
@@ -210,6 +218,9 @@ func (fx *FuncCtx) intConv(st *State, t Term, fk, tk intKind, node ast.Node) Ter
 func (fx *FuncCtx) intToFloat(t Term, s Sort) Term {
 	if n, ok := isIntLit(t); ok {
 		return fx.floatConst(float64(n), s)
+	}
+	if fx.real {
+		return app(s, "to_real", t)
 	}
 	fn := "i2f_" + string(s)
 	fx.declFun(fn, []Sort{SInt}, s)
@@ -703,6 +714,8 @@ func (fx *FuncCtx) applyContract(st *State, con *Contract, callee *types.Func, r
 
 func (fx *FuncCtx) tagActive(tag string) bool {
 	switch tag {
+	case "real":
+		return fx.real
 	case "noasm":
 		return strings.Contains(fx.cfg, "noasm")
 	}
@@ -993,7 +1006,7 @@ func (fx *FuncCtx) runDefers(st *State) {
 // rejects a non-value element, so a named array with a defining axiom is used.
 func (fx *FuncCtx) constArray(es Sort, z Term) Term {
 	as := ArraySort(SInt, es)
-	if es == SInt || es == SBool || fx.ieee && (es == SF64 || es == SF32) {
+	if es == SInt || es == SBool || (fx.ieee || fx.real) && (es == SF64 || es == SF32) {
 		return Term{fmt.Sprintf("((as const %s) %s)", as, z.S), as}
 	}
 	name := "constarr_" + smtName(string(es)) + "_" + smtName(z.S)
